@@ -46,11 +46,11 @@ type OblSpec struct {
 }
 
 type oblKey struct {
-	count   int
-	xfer    bool
-	pending bool // creation status not yet tested
-	born    Born
-	marks   string // sorted, comma separated
+	count    int
+	xfer     bool
+	pending  bool // creation status not yet tested
+	born     Born
+	marks    string // sorted, comma separated
 	deferred int
 }
 
